@@ -1,8 +1,249 @@
-//! notes, hash tables, symbol versions
+//! notes, hash tables, symbol versions: executor operations
+use crate::alloc::measured;
 use crate::exec::*;
-use serde_json::Value;
-pub fn notes(_x: &mut Exec, _op: &Value) -> Value { unimplemented!() }
-pub fn hash_fn(_op: &Value) -> Value { unimplemented!() }
-pub fn hash_find(_x: &mut Exec, _op: &Value) -> Value { unimplemented!() }
-pub fn ver_iter(_x: &mut Exec, _op: &Value) -> Value { unimplemented!() }
-pub fn symver(_x: &mut Exec, _op: &Value) -> Vec<Value> { unimplemented!() }
+use crate::proj::*;
+use crate::with_es;
+use elf::endian::{AnyEndian, BigEndian, EndianParse, LittleEndian, NativeEndian};
+use elf::gnu_symver::{SymbolVersionTable, VerDefAuxIterator, VerDefIterator, VerNeedAuxIterator, VerNeedIterator, VersionIndexTable};
+use elf::hash::{GnuHashTable, SysVHashTable};
+use elf::note::{Note, NoteIterator};
+use elf::string_table::StringTable;
+use elf::symbol::SymbolTable;
+use serde_json::{json, Value};
+
+pub fn note_proj(base: &[u8], n: &Note<'_>) -> Value {
+    match n {
+        Note::GnuAbiTag(t) => json!({"k":"abitag","f":t.proj()}),
+        Note::GnuBuildId(b) => json!({"k":"buildid","desc":rng(base, b.0)}),
+        Note::Unknown(a) => {
+            let ns = match a.name_str() {
+                Ok(s) => json!({"out":"ok","s":rng(base, s.as_bytes())}),
+                Err(_) => json!({"out":"err"}),
+            };
+            json!({"k":"any","n_type":w8(a.n_type),"name":rng(base, a.name),"desc":rng(base, a.desc),"name_str":ns})
+        }
+    }
+}
+
+/// run a note iterator to its end (standard iteration), allocation-free inside the measured region
+pub fn collect_notes<'a, E: EndianParse>(it: NoteIterator<'a, E>) -> (Result<(usize, Vec<Note<'a>>), String>, u64, u64) {
+    let mut items: Vec<Note<'a>> = Vec::with_capacity(ITER_CAP);
+    let (r, a, m) = measured(|| {
+        let mut n = 0usize;
+        for x in it {
+            if items.len() < ITER_CAP {
+                items.push(x);
+            }
+            n += 1;
+            if n > 4 * ITER_CAP {
+                break;
+            }
+        }
+        n
+    });
+    (r.map(|n| (n, items)), a, m)
+}
+
+pub fn notes_res(base: &[u8], r: Result<(usize, Vec<Note<'_>>), String>) -> Value {
+    match r {
+        Ok((n, items)) => json!({"out":"ok","n":n,"items":items.iter().map(|x| note_proj(base, x)).collect::<Vec<_>>()}),
+        Err(p) => panic_res(&p),
+    }
+}
+
+pub fn notes(x: &mut Exec, op: &Value) -> Value {
+    let buf = x.buf(op, "buf");
+    let class = class_of(&op["class"]);
+    let align = rd_w(&op["align"]) as usize;
+    let es = op["es"].as_str().unwrap();
+    with_es!(es, e => {
+        let (r, a, m) = collect_notes(NoteIterator::new(e, class, align, buf));
+        event(op, notes_res(buf, r), a, m)
+    })
+}
+
+pub fn hash_fn(op: &Value) -> Value {
+    let name = rd_bytes(&op["name"]);
+    let sysv = op["op"] == "sysv_hash";
+    let (r, a, m) = measured(|| if sysv { elf::hash::sysv_hash(&name) } else { elf::hash::gnu_hash(&name) });
+    event(op, match r { Ok(h) => json!({"out":"ok","h":w4(h)}), Err(p) => panic_res(&p) }, a, m)
+}
+
+pub fn hash_find(x: &mut Exec, op: &Value) -> Value {
+    let hb = x.buf(op, "hash");
+    let symb = x.buf(op, "sym");
+    let strb = x.buf(op, "str");
+    let name = rd_bytes(&op["name"]);
+    let class = class_of(&op["class"]);
+    let es = op["es"].as_str().unwrap();
+    let sysv = op["op"] == "sysv_find";
+    with_es!(es, e => {
+        let (r, a, m) = measured(|| {
+            let symtab = SymbolTable::new(e, class, symb);
+            let strtab = StringTable::new(strb);
+            if sysv {
+                match SysVHashTable::new(e, class, hb) {
+                    Err(er) => (Some(er), None, None),
+                    Ok(t) => match t.find(&name, &symtab, &strtab) { Ok(v) => (None, Some(v), None), Err(er) => (None, None, Some(er)) },
+                }
+            } else {
+                match GnuHashTable::new(e, class, hb) {
+                    Err(er) => (Some(er), None, None),
+                    Ok(t) => match t.find(&name, &symtab, &strtab) { Ok(v) => (None, Some(v), None), Err(er) => (None, None, Some(er)) },
+                }
+            }
+        });
+        let res = match r {
+            Err(p) => panic_res(&p),
+            Ok((Some(er), _, _)) => { let mut v = err(&er); v["at"] = json!("new"); v }
+            Ok((_, Some(None), _)) => json!({"out":"none"}),
+            Ok((_, Some(Some((i, s))), _)) => json!({"out":"ok","idx":w8(i as u64),"sym":s.proj()}),
+            Ok((_, _, Some(er))) => err(&er),
+            Ok(_) => json!({"out":"?"}),
+        };
+        event(op, res, a, m)
+    })
+}
+
+pub fn ver_iter(x: &mut Exec, op: &Value) -> Value {
+    let buf = x.buf(op, "buf");
+    let class = class_of(&op["class"]);
+    let es = op["es"].as_str().unwrap();
+    let count = rd_w(&op["count"]);
+    let start = rd_w(&op["start"]) as usize;
+    let kind = op["op"].as_str().unwrap();
+    const CAP: usize = 1024;
+    with_es!(es, e => {
+        let mut out: Vec<Value> = Vec::new();
+        let (r, a, m);
+        match kind {
+            "verdef_iter" => {
+                let mut items = Vec::with_capacity(CAP);
+                let mut auxs: Vec<Vec<elf::gnu_symver::VerDefAux>> = (0..CAP).map(|_| Vec::with_capacity(64)).collect();
+                (r, a, m) = measured(|| {
+                    let mut n = 0usize;
+                    for (vd, ai) in VerDefIterator::new(e, class, count, start, buf) {
+                        if n < CAP { for (k, ax) in ai.enumerate() { if k < 64 { auxs[n].push(ax); } else { break; } } items.push(vd); }
+                        n += 1;
+                        if n > 4 * CAP { break; }
+                    }
+                    n
+                });
+                for (i, vd) in items.iter().enumerate() {
+                    out.push(json!({"f":vd.proj(),"aux":auxs[i].iter().map(|a| a.proj()).collect::<Vec<_>>()}));
+                }
+            }
+            "verneed_iter" => {
+                let mut items = Vec::with_capacity(CAP);
+                let mut auxs: Vec<Vec<elf::gnu_symver::VerNeedAux>> = (0..CAP).map(|_| Vec::with_capacity(64)).collect();
+                (r, a, m) = measured(|| {
+                    let mut n = 0usize;
+                    for (vn, ai) in VerNeedIterator::new(e, class, count, start, buf) {
+                        if n < CAP { for (k, ax) in ai.enumerate() { if k < 64 { auxs[n].push(ax); } else { break; } } items.push(vn); }
+                        n += 1;
+                        if n > 4 * CAP { break; }
+                    }
+                    n
+                });
+                for (i, vn) in items.iter().enumerate() {
+                    out.push(json!({"f":vn.proj(),"aux":auxs[i].iter().map(|a| a.proj()).collect::<Vec<_>>()}));
+                }
+            }
+            "verdaux_iter" => {
+                let mut items = Vec::with_capacity(CAP);
+                (r, a, m) = measured(|| {
+                    let mut n = 0usize;
+                    for ax in VerDefAuxIterator::new(e, class, count as u16, start, buf) {
+                        if n < CAP { items.push(ax); }
+                        n += 1;
+                        if n > 4 * CAP { break; }
+                    }
+                    n
+                });
+                for ax in items.iter() { out.push(json!({"f":ax.proj()})); }
+            }
+            _ => {
+                let mut items = Vec::with_capacity(CAP);
+                (r, a, m) = measured(|| {
+                    let mut n = 0usize;
+                    for ax in VerNeedAuxIterator::new(e, class, count as u16, start, buf) {
+                        if n < CAP { items.push(ax); }
+                        n += 1;
+                        if n > 4 * CAP { break; }
+                    }
+                    n
+                });
+                for ax in items.iter() { out.push(json!({"f":ax.proj()})); }
+            }
+        }
+        event(op, match r { Ok(n) => json!({"out":"ok","n":n,"items":out}), Err(p) => panic_res(&p) }, a, m)
+    })
+}
+
+pub fn req_proj(strb: &[u8], r: &elf::gnu_symver::SymbolRequirement<'_>) -> Value {
+    json!({"out":"ok","file":rng(strb, r.file.as_bytes()),"name":rng(strb, r.name.as_bytes()),
+           "hash":w4(r.hash),"flags":w2(r.flags),"hidden":r.hidden})
+}
+
+/// queries on one SymbolVersionTable object; qs = [["req"|"def", W8 index], ...]
+pub fn symver_queries<'a, E: EndianParse>(
+    t: &SymbolVersionTable<'a, E>, qs: &[Value], need_str: &[u8], def_str: &[u8],
+) -> Vec<Value> {
+    let mut evs = Vec::new();
+    for q in qs {
+        let what = q[0].as_str().unwrap_or("req");
+        let i = rd_w(&q[1]) as usize;
+        let sop = json!({"op": format!("symver_{what}"), "i": q[1].clone()});
+        if what == "req" {
+            let (r, a, m) = measured(|| t.get_requirement(i));
+            let res = match r {
+                Err(p) => panic_res(&p),
+                Ok(Err(e)) => err(&e),
+                Ok(Ok(None)) => json!({"out":"none"}),
+                Ok(Ok(Some(rq))) => req_proj(need_str, &rq),
+            };
+            evs.push(event(&sop, res, a, m));
+        } else {
+            let mut names: Vec<Result<&str, elf::ParseError>> = Vec::with_capacity(256);
+            let (r, a, m) = measured(|| {
+                t.get_definition(i).map(|o| o.map(|d| {
+                    let (h, f, hid) = (d.hash, d.flags, d.hidden);
+                    let mut n = 0usize;
+                    for nm in d.names { if names.len() < 256 { names.push(nm); } n += 1; if n > 1024 { break; } }
+                    (h, f, hid, n)
+                }))
+            });
+            let res = match r {
+                Err(p) => panic_res(&p),
+                Ok(Err(e)) => err(&e),
+                Ok(Ok(None)) => json!({"out":"none"}),
+                Ok(Ok(Some((h, f, hid, n)))) => json!({"out":"ok","hash":w4(h),"flags":w2(f),"hidden":hid,"n":n,
+                    "names": names.iter().map(|x| match x { Ok(s) => json!({"out":"ok","s":rng(def_str, s.as_bytes())}), Err(_) => json!({"out":"err"}) }).collect::<Vec<_>>()}),
+            };
+            evs.push(event(&sop, res, a, m));
+        }
+    }
+    evs
+}
+
+pub fn symver(x: &mut Exec, op: &Value) -> Vec<Value> {
+    let class = class_of(&op["class"]);
+    let es = op["es"].as_str().unwrap();
+    let versym = x.buf(op, "versym");
+    let need = op.get("need").filter(|v| v.is_object()).map(|n| (x.buf(n, "buf"), rd_w(&n["count"]), x.buf(n, "str")));
+    let def = op.get("def").filter(|v| v.is_object()).map(|n| (x.buf(n, "buf"), rd_w(&n["count"]), x.buf(n, "str")));
+    let qs: Vec<Value> = op["q"].as_array().cloned().unwrap_or_default();
+    let mut head = op.as_object().cloned().unwrap();
+    head.remove("q");
+    head.remove("exp");
+    head.insert("op".into(), json!("symver_new"));
+    let mut evs = vec![Value::Object(head)];
+    with_es!(es, e => {
+        let ids = VersionIndexTable::new(e, class, versym);
+        let vn = need.map(|(b, c, s)| (VerNeedIterator::new(e, class, c, 0, b), StringTable::new(s)));
+        let vd = def.map(|(b, c, s)| (VerDefIterator::new(e, class, c, 0, b), StringTable::new(s)));
+        let t = SymbolVersionTable::new(ids, vn, vd);
+        evs.extend(symver_queries(&t, &qs, need.map(|n| n.2).unwrap_or(&[]), def.map(|d| d.2).unwrap_or(&[])));
+    });
+    evs
+}
